@@ -397,15 +397,67 @@ func runC01(c *harness.Ctx) {
 		cUp = true
 		cs.start(c, conn, "C01")
 	})
+	// In one run of four the bridge serves a second connection at the same time
+	// (same factories, its own link, its own position-coded content): whatever
+	// the two connections share inside the process must not let bytes of one
+	// show up, or go missing, in the other.
+	var cs2, ss2 *streamSide
+	var link2 *linkT
+	c2Up, s2Up := true, true
+	if t.Draw("companion", 4) == 3 {
+		c2Up, s2Up = false, false
+		link2 = c.Net.NewLink("c2", "s2")
+		configurePipe(c, link2.AB, "c2s2")
+		configurePipe(c, link2.BA, "s2c2")
+		cs2 = &streamSide{name: "c2", dirOut: 2, dirIn: 3, plan: drawWrites(c, "cw2", 4), rdBuf: []int{32768, 1427, 4096}[t.Draw("c2.rdbuf", 3)], ending: &ending}
+		ss2 = &streamSide{name: "s2", dirOut: 3, dirIn: 2, plan: drawWrites(c, "sw2", 4), rdBuf: []int{32768, 1427, 4096}[t.Draw("s2.rdbuf", 3)], ending: &ending}
+		cs2.expectIn, ss2.expectIn = planTotal(ss2.plan), planTotal(cs2.plan)
+		c.Info["companion_client_writes"], c.Info["companion_server_writes"] = cs2.plan, ss2.plan
+		c.Feature("second-connection-alongside")
+		c.S.Go("s2/accept", func() {
+			conn, err := sf.WrapConn(link2.B)
+			if err != nil {
+				if !ending {
+					c.Violate("C01/handshake-failed", "second connection, server WrapConn: %v", err)
+				}
+				return
+			}
+			s2Up = true
+			ss2.start(c, conn, "C01")
+		})
+		c.S.Go("c2/dial", func() {
+			args, err := cf.ParseArgs(sf.Args())
+			if err != nil {
+				c.Violate("C01/handshake-failed", "client ParseArgs: %v", err)
+				return
+			}
+			conn, err := cf.Dial("tcp", "10.0.0.2:443", dialTo(link2.A), args)
+			if err != nil {
+				if !ending {
+					c.Violate("C01/handshake-failed", "second connection, client Dial: %v", err)
+				}
+				return
+			}
+			c2Up = true
+			cs2.start(c, conn, "C01")
+		})
+	}
+	done2 := func() bool { return cs2 == nil || c2Up && s2Up && cs2.complete() && ss2.complete() }
+	moved2 := func() int64 {
+		if cs2 == nil {
+			return 0
+		}
+		return cs2.gotIn + ss2.gotIn + link2.AB.Written + link2.BA.Written
+	}
 	// "stalled" is ten virtual minutes in which no byte was written to the wire
 	// or delivered to an application - not ten minutes in all: a megabyte in
 	// paranoid IAT mode under a table of tiny lengths legitimately trickles for
 	// longer than that (4 bytes every 0-10 ms)
 	var stop sim.Stop
 	for round := 0; round < 60; round++ {
-		moved := cs.gotIn + ss.gotIn + link.AB.Written + link.BA.Written
-		stop = c.S.Run(func() bool { return cUp && sUp && cs.complete() && ss.complete() }, 10*time.Minute)
-		if stop != sim.StopTime || cs.gotIn+ss.gotIn+link.AB.Written+link.BA.Written == moved {
+		moved := cs.gotIn + ss.gotIn + link.AB.Written + link.BA.Written + moved2()
+		stop = c.S.Run(func() bool { return cUp && sUp && cs.complete() && ss.complete() && done2() }, 10*time.Minute)
+		if stop != sim.StopTime || cs.gotIn+ss.gotIn+link.AB.Written+link.BA.Written+moved2() == moved {
 			break
 		}
 		c.Feature("transfer-longer-than-10-virtual-minutes")
@@ -414,9 +466,13 @@ func runC01(c *harness.Ctx) {
 	c.Nontrivial = c.S.Counters["net.split"]+c.S.Counters["net.coalesce"] > 0 && cs.expectIn+ss.expectIn > 0
 	switch stop {
 	case sim.StopTime:
-		c.Violate("C01/stalled-bytes", "10 virtual minutes without traffic and still incomplete: handshakes done client=%v server=%v; client read %d of %d (writer done %v), server read %d of %d (writer done %v); unread on wire c2s in-flight=%d buffered=%d, s2c in-flight=%d buffered=%d; blocked tasks %v",
+		second := ""
+		if cs2 != nil {
+			second = fmt.Sprintf("; second connection: handshakes done client=%v server=%v, client read %d of %d, server read %d of %d", c2Up, s2Up, cs2.gotIn, cs2.expectIn, ss2.gotIn, ss2.expectIn)
+		}
+		c.Violate("C01/stalled-bytes", "10 virtual minutes without traffic and still incomplete: handshakes done client=%v server=%v; client read %d of %d (writer done %v), server read %d of %d (writer done %v); unread on wire c2s in-flight=%d buffered=%d, s2c in-flight=%d buffered=%d; blocked tasks %v%s",
 			cUp, sUp, cs.gotIn, cs.expectIn, cs.wrDone, ss.gotIn, ss.expectIn, ss.wrDone,
-			link.AB.InFlight(), link.AB.Buffered(), link.BA.InFlight(), link.BA.Buffered(), c.S.LiveTasks())
+			link.AB.InFlight(), link.AB.Buffered(), link.BA.InFlight(), link.BA.Buffered(), c.S.LiveTasks(), second)
 	case sim.StopCond:
 		// let any trailing padding drain and make sure nothing else surfaces
 		c.S.Run(func() bool { return false }, time.Minute)
